@@ -18,6 +18,7 @@ uint64_t vf_concretize(uint64_t v);              /* force a case split over the 
 int      vf_spawn(void (*fn)(void *), void *arg);
 void     vf_join(void);
 void     vf_yield(void);
+uint32_t vf_choose(uint32_t n, const char *name); /* nondeterministic choice in 0..n-1 by forking, no symbolic variable */
 #ifdef __cplusplus
 }
 /* convenience */
